@@ -3,10 +3,12 @@ package props
 import (
 	"encoding/json"
 	"fmt"
+	"sort"
 	"strconv"
 	"strings"
 	"testing"
 
+	sdkmath "cosmossdk.io/math"
 	"pgregory.net/rapid"
 
 	orbitertypes "github.com/noble-assets/orbiter/v2/types"
@@ -150,9 +152,41 @@ func runC20Paths(w *world.World, c caseC20, rec *kit.Recorder) error {
 	res := w.Tx(ctx, msg)
 	var q forwardertypes.QueryIsCrossChainPausedResponse
 	qerr := w.Query(ctx, fwdQuery+"IsCrossChainPaused", &forwardertypes.QueryIsCrossChainPausedRequest{ProtocolId: name, CounterpartyId: c.Counterparty}, &q)
+	// the dispatcher genesis carries cross-chain ids too, in the source and in the destination
+	// role of its amount and count records
+	disp := map[string]error{}
+	for _, role := range []string{"source", "destination"} {
+		for _, kind := range []string{"amount", "count"} {
+			id := &core.CrossChainID{ProtocolId: core.ProtocolID(c.Protocol), CounterpartyId: c.Counterparty}
+			src, dst := &core.CrossChainID{ProtocolId: core.PROTOCOL_IBC, CounterpartyId: "channel-0"}, &core.CrossChainID{ProtocolId: core.PROTOCOL_INTERNAL, CounterpartyId: "noble"}
+			if role == "source" {
+				src = id
+			} else {
+				dst = id
+			}
+			dg := orbitertypes.DefaultGenesisState()
+			if kind == "amount" {
+				dg.DispatcherGenesis.DispatchedAmounts = []dispatchertypes.DispatchedAmountEntry{{SourceId: src, DestinationId: dst, Denom: world.Uusdc,
+					AmountDispatched: dispatchertypes.AmountDispatched{Incoming: sdkmath.NewInt(2), Outgoing: sdkmath.NewInt(1)}}}
+			} else {
+				dg.DispatcherGenesis.DispatchedCounts = []dispatchertypes.DispatchCountEntry{{SourceId: src, DestinationId: dst, Count: 3}}
+			}
+			disp["dispatcher genesis "+kind+" record, "+role+" role"] = dg.Validate()
+		}
+	}
+	var dispPaths []string
+	for k := range disp {
+		dispPaths = append(dispPaths, k)
+	}
+	sort.Strings(dispPaths)
 	if !canonical {
 		rec.Label("paths", "non-canonical string")
 		rec.Sample("paths/non-canonical", c)
+		for _, k := range dispPaths {
+			if disp[k] == nil {
+				return fmt.Errorf("genesis validation (%s) accepts the non-canonical %s counterparty %q", k, name, c.Counterparty)
+			}
+		}
 		switch {
 		case gerr == nil:
 			return fmt.Errorf("genesis validation accepts the non-canonical %s counterparty %q", name, c.Counterparty)
@@ -166,6 +200,11 @@ func runC20Paths(w *world.World, c caseC20, rec *kit.Recorder) error {
 	rec.Label("paths", "canonical string")
 	rec.Sample("paths/canonical", c)
 	rec.NonTrivial(fmt.Sprintf("paths|%d|%s", c.Protocol, c.Counterparty))
+	for _, k := range dispPaths {
+		if disp[k] != nil {
+			return fmt.Errorf("canonical %s domain %q refused by genesis validation (%s): %v", name, c.Counterparty, k, disp[k])
+		}
+	}
 	if gerr != nil || !res.OK() || qerr != nil || !q.IsPaused {
 		return fmt.Errorf("canonical %s domain %q: genesis %v, pause %v, query %v paused=%v", name, c.Counterparty, gerr, res.Err, qerr, q.IsPaused)
 	}
